@@ -655,6 +655,14 @@ def oracle(c):
     if top is not res[id(t)] and top != res[id(t)]:
         return ('start-does-not-return-root-result', {'observed': repr(top)[:100]})
     if d['kind'] != 'built':
+        # an argument that was not written is a None placeholder - also when the call is the last thing in the input -,
+        # never an empty node list standing for "nothing was there"
+        from pylatexenc.latexnodes import nodes as N
+        for p, o, role in objs:
+            if role == 'args':
+                for j, a in enumerate(o.argnlist or []):
+                    if isinstance(a, N.LatexNodeList) and len(a.nodelist) == 0:
+                        return ('absent-argument-is-not-a-None-placeholder', {'arguments': where(o), 'slot': j})
         return _recomposer_order(t, where)
     return None
 
